@@ -68,7 +68,7 @@ func TestC08Cipher(t *testing.T) {
 	perDir := 1300 // records per direction: > 2 rotations (2 encryptions each)
 	if thorough {
 		sessions = 4
-		perDir = 5200
+		perDir = 2600 // five rotations per direction and session
 	}
 	for s := 0; s < sessions; s++ {
 		p := defaultHs()
